@@ -266,11 +266,19 @@ def c05(tier):
         opts = [o["t"] for o in cl["ops"]]
         ws = []
         for n in range(0, maxops + 1):
+            if len(opts) ** n > 700:
+                continue        # tables with many operators: the longest chains are sampled below instead
             for combo in itertools.product(opts, repeat=n):
                 w = [cl["atom"]]
                 for o in combo:
                     w += [o, cl["atom"]]
                 ws.append(w)
+        for _ in range(0 if quick else 300):
+            n = rng.randint(maxops, 7)
+            w = [cl["atom"]]
+            for _ in range(n):
+                w += [rng.choice(opts), cl["atom"]]
+            ws.append(w)
         # parenthesised / function-call variants of random chains
         for _ in range(60 if quick else 400):
             n = rng.randint(2, 6 if quick else 8)
@@ -289,12 +297,23 @@ def c05(tier):
     json.dump([c["climb"] for c in acc], open(os.path.join(sd, "climb_cases.json"), "w"))
     truns = [{"c": idx[x["case"]] + 1, "w": x["w"], "ok": x["ok"] and not x["errs"],
               "events": [norm_event(e) for e in x["events"] if e["e"] == "act"]} for x in recs]
-    json.dump(truns, open(os.path.join(sd, "climb_runs.json"), "w"))
-    r = tlc(sc, "ClimbObs", cfg="ClimbObs.cfg", cwd=sd, timeout=3000)
-    tlc_must(r, "ClimbObs")
-    if r.violation or r.distinct != 2 * len(truns):
-        raise Infra("ClimbObs did not evaluate every run: %s %d/%d" % (r.violation, r.distinct, 2 * len(truns)))
-    for b in [l for l in r.lines if l.get("climb") == "bad"]:
+    # TLC reads the runs as one JSON value: feed them in chunks
+    climb_bad = []
+    r = TlcResult(); r.ok = True
+    CH = 20000
+    for k in range(0, len(truns), CH):
+        part = truns[k:k + CH]
+        json.dump(part, open(os.path.join(sd, "climb_runs.json"), "w"))
+        rk = tlc(sc, "ClimbObs", cfg="ClimbObs.cfg", cwd=sd, timeout=3000)
+        tlc_must(rk, "ClimbObs")
+        if rk.violation or rk.distinct != 2 * len(part):
+            raise Infra("ClimbObs did not evaluate every run: %s %d/%d" % (rk.violation, rk.distinct, 2 * len(part)))
+        for l in rk.lines:
+            if l.get("climb") == "bad":
+                l["r"] += k
+                climb_bad.append(l)
+        r.states += rk.states; r.distinct += rk.distinct
+    for b in climb_bad:
         run, c = truns[b["r"]], acc[b["c"]]
         cl = c["climb"]
         has_right_chain = False
